@@ -153,6 +153,11 @@ func (lx *Lexer) line() int {
 			return i + 1
 		}
 		u.F["addrs"], u.F["hashes"] = addrs, hashes
+		up := []string{}
+		for _, a := range addrs {
+			up = append(up, strings.ToUpper(a))
+		}
+		u.F["addrsU"] = up
 	case strings.HasPrefix(s, ";PQ:"):
 		u.Kind = "Pq"
 		u.F["challenge"] = strings.TrimPrefix(s[4:], " ")
